@@ -1013,12 +1013,12 @@ impl EncryptedEntry for Vault {
         commit: CommitHash,
         secret: VaultEntry,
     ) -> Result<WriteEvent> {
-        let value = self
-            .contents
-            .data
-            .entry(id)
-            .or_insert(VaultCommit(commit, secret));
-        Ok(WriteEvent::CreateSecret(id, value.clone()))
+        // Overwrite an existing entry so that the in-memory vault
+        // agrees with the storage mirror (which has already been
+        // written) and with the event that is replayed by reducers
+        let value = VaultCommit(commit, secret);
+        self.contents.data.insert(id, value.clone());
+        Ok(WriteEvent::CreateSecret(id, value))
     }
 
     async fn read_secret<'a>(
